@@ -479,7 +479,7 @@ func init() {
 	fw.Register(&fw.Property{
 		ID:     "C06",
 		Run:    runC06,
-		Rule:   "values = every string up to the tier's length over the 14-character alphabet {a n \" \\ LF TAB ¬ ʞ { } SP ; $ CR}, each also wrapped as {\"…} and {\"…\"} to force the raw printer, plus seeded random Unicode strings, identifiers, boundary integers and nested lists/vectors/maps/sets; each is printed with PRINT and read with READ, and again through (read-string (pr-str 'v)), and compared with an independent structural comparison; accepted texts (C05's generators, valid UTF-8, no float) are checked for READ∘PRINT∘READ = READ; distinct = distinct rendered values with fewer than 12 nodes",
+		Rule:   "values = every string up to the tier's length over the 14-character alphabet {a n \" \\ LF TAB ¬ ʞ { } SP ; $ CR}, each also wrapped as {\"…} and {\"…\"} to force the raw printer, plus seeded random Unicode strings, identifiers, boundary integers and nested lists/vectors/maps/sets; each is printed with PRINT and read with READ, and again through (read-string (pr-str 'v)), and compared with an independent structural comparison; accepted texts (C05's generators, valid UTF-8, no float) are checked for READ∘PRINT∘READ = READ; distinct = distinct rendered values with fewer than 12 nodes; long strings (40-5000 bytes around the 512 boundary, alone and nested) printed in plain mode (str) immediately before the round trip; identifiers with non-ASCII letters and digits",
 		Assume: []string{"strings are valid UTF-8 and do not start with U+029E (such a Go string is a keyword in this implementation)", "symbols/keywords range over the scanner's identifier alphabet; names starting with $ are placeholders, not symbols", "floats excluded by the statement"},
 		Finish: func(m *fw.Merged) {
 			fuzzStep(m, "FuzzRoundTrip", "150000x", "8000000x")
